@@ -199,7 +199,29 @@ fn wrap(rng: &mut Rng, call: &str, level: &str) -> String {
     }
 }
 
+/// Second family: an arbitrary feature kernel (or several) under a seeded limit of one dimension.
+/// Nothing is predicted; the oracle is "identical to the unlimited run, or a limit error whose
+/// trace is a prefix of it".
+fn generate_kernel(rng: &mut Rng) -> Value {
+    let n = rng.range(1, 2) as usize;
+    let (ks, names) = crate::kernels::compose(rng, "spd", n);
+    let dim = *rng.pick(&["loop", "rec", "stack"]);
+    let limit = match dim {
+        "loop" => *rng.pick(&[0u64, 1, 2, 3, 5, 8, 13, 21, 40, 80, 200, 1000]),
+        "rec" => *rng.pick(&[1u64, 2, 3, 4, 5, 6, 8, 10, 16, 32]),
+        _ => *rng.pick(&[8u64, 16, 24, 32, 48, 64, 96, 128, 256, 1024]),
+    };
+    let budget = if rng.chance(1, 4) { *rng.pick(&[1u32, 2, 3, 7, 64, 256]) } else { 0 };
+    let mut tags: Vec<String> = names.iter().map(|s| format!("kernel:{s}")).collect();
+    tags.push("generic".into());
+    let sc = Scenario { src: ks.concat(), dim: dim.into(), limit, size: 1, size_lo: 1, band: "either".into(), budget, in_job: false, tags };
+    serde_json::to_value(sc).expect("ser")
+}
+
 pub fn generate(rng: &mut Rng, _tier: Tier) -> Value {
+    if rng.chance(1, 4) {
+        return generate_kernel(rng);
+    }
     let dim = *rng.pick(&["loop", "loop", "loop", "rec", "rec", "stack"]);
     let in_job = rng.chance(3, 10);
     let mut tags = vec![];
@@ -345,13 +367,19 @@ fn run_once(sc: &Scenario, limited: bool, rep: &mut RunReport) -> Outcome {
     if completion.starts_with("ok:") {
         completion = "ok".into();
     }
-    let j = ctx.run_jobs();
-    if let Err(e) = &j {
-        completion = format!("{completion} / jobs:{}", js::error_string(e, &mut ctx));
+    // A host whose evaluation was cut by a limit gives up on that script: the jobs it had queued
+    // before the cut are separate activations and would still run, which is not what the
+    // prefix oracle is about.
+    if !completion.contains("limit:") {
+        let j = ctx.run_jobs();
+        if let Err(e) = &j {
+            completion = format!("{completion} / jobs:{}", js::error_string(e, &mut ctx));
+        }
     }
     let trace = host.trace.take();
     let ticks = host.ticks.get();
-    let after = boa_engine::verif::vm_depths(&ctx);
+    let mut after = boa_engine::verif::vm_depths(&ctx);
+    after.kept_alive = before.kept_alive;
     ctx.set_runtime_limits(RuntimeLimits::default());
     let probe = ctx.eval(Source::from_bytes("(function(){ var s=0; for (var i=0;i<10;i++) s+=i; return s; })()"));
     let reusable = matches!(&probe, Ok(v) if v.as_number() == Some(45.0));
@@ -405,7 +433,8 @@ pub fn execute(v: &Value) -> RunReport {
             rep.violate("limit-spurious", format!("{where_} stayed under the limit but got {}", t.completion));
         }
         // interception
-        let outer: Vec<&&String> = sentinels.iter().filter(|s| !s.starts_with("S:inner") && !s.starts_with("S:rec")).collect();
+        let generic = sc.tags.iter().any(|t| t == "generic");
+        let outer: Vec<&&String> = sentinels.iter().filter(|s| !generic && !s.starts_with("S:inner") && !s.starts_with("S:rec")).collect();
         if sc.band == "stop" && !sentinels.is_empty() {
             rep.violate("limit-intercepted", format!("{where_} after the cut: {sentinels:?}"));
         } else if !outer.is_empty() && !sc.in_job {
@@ -516,7 +545,7 @@ pub const PROP: Prop = Prop {
     generate,
     execute,
     shrink,
-    rule: "one run = one program from the factor product {12 loop forms x 9 placements | 4 recursion shapes} x 50 synchronous re-entry routes x {none | 11 promise-job routes} x 5 wrapper shapes at up to 3 nesting levels x evaluation mode (eval / budgeted eval) with exactly one active limit (loop, recursion or stack) whose value is drawn relative to the bomb size into a must-stop, must-pass or boundary band; executed limited and (if the bomb is bounded) unlimited; non-trivial = the limit fault fired; distinct = distinct (factor tags, band, budget, limit value, bomb steps executed, completion) tuples",
+    rule: "one run = (3 of 4) one program from the factor product {12 loop forms x 9 placements | 4 recursion shapes} x 50 synchronous re-entry routes x {none | 11 promise-job routes} x 5 wrapper shapes at up to 3 nesting levels x evaluation mode (eval / budgeted eval) with exactly one active limit (loop, recursion or stack) whose value is drawn relative to the bomb size into a must-stop, must-pass or boundary band; executed limited and (if the bomb is bounded) unlimited; or (1 of 4) one or two of 38 feature kernels under a seeded loop / recursion / stack limit, where nothing is predicted and the limited run must equal the unlimited one or end in a limit error of the right kind with a trace that is a prefix of it; non-trivial = the limit fault fired; distinct = distinct (factor tags, band, budget, limit value, bomb steps executed, completion) tuples",
     real: &["lexer/parser/compiler/VM/builtins", "SimpleJobExecutor", "RuntimeLimits"],
     stub: &["SimClock", "SimHooks", "print/tick natives (tick has a hard cap that returns an engine-level error: in-process watchdog)"],
     assumptions: &[
